@@ -224,7 +224,7 @@ PROPS = {
                        "at most `limit` admissions per window, window starts >= duration apart, and - by induction over arbitrary attempt histories of a key "
                        "(lemma_two_limit) - never more than 2*limit admissions within any interval of length `duration`.",
         "not_covered": ["limit >= 2^32 - 1 (the harnesses draw the limit from [1, 2^24] and (2^24, 2^32 - 2]; the second range is where an f32 counter stalled before the fix 8b45174)", "durations that are not whole seconds (start() builds them with Duration::from_secs) and > 366 days",
-                        "more than two simultaneously tracked keys (model map has two slots; the step is independent of the other slot's contents, which are arbitrary)",
+                        "the contents of more than two simultaneously tracked keys (the model map keeps two slots with arbitrary contents; the number of further tracked keys is symbolic, up to 2^40, and visible through len(), so code that acts on the size of the map is analysed for every size; both an already tracked key and a newcomer visit)",
                         "'tracked keys limited to those seen in the last four durations': only the per-call cleanup contract is proved; cleanup runs on admitted attempts only"],
         "assumptions": ["std HashMap::{entry, or_insert, retain, len} behave like the association-list model", "tokio Instant::now is monotone; both reads inside one call return the same instant"],
     },
